@@ -1052,18 +1052,24 @@ func c01Prune(w *World, r *Report) {
 	// Create calls removeLeastRecent(name, MaxHistory-1) before the driver create
 	sc := w.Fn("pkg/storage", "Storage.Create")
 	okArg := false
+	passesVersion := false
 	var at ssa.Instruction
 	if sc != nil {
 		for _, c := range callInstrs(sc) {
-			if f, _ := calleeOf(c.Common()); origin(f) == fn && len(c.Common().Args) == 3 {
+			if f, _ := calleeOf(c.Common()); f != nil && origin(f) == fn {
 				at = c
-				if bo, ok := c.Common().Args[2].(*ssa.BinOp); ok && bo.Op == token.SUB {
-					if i, ok := constInt(bo.Y); ok && i == 1 {
-						if ld, ok := bo.X.(*ssa.UnOp); ok {
-							if fa, ok := ld.X.(*ssa.FieldAddr); ok && isFieldOf(fa, storagePkg, "Storage", "MaxHistory") {
-								okArg = true
+				for _, a := range c.Common().Args {
+					if bo, ok := a.(*ssa.BinOp); ok && bo.Op == token.SUB {
+						if i, ok := constInt(bo.Y); ok && i == 1 {
+							if ld, ok := bo.X.(*ssa.UnOp); ok {
+								if fa, ok := ld.X.(*ssa.FieldAddr); ok && isFieldOf(fa, storagePkg, "Storage", "MaxHistory") {
+									okArg = true
+								}
 							}
 						}
+					}
+					if isVersionLoad(a) {
+						passesVersion = true
 					}
 				}
 			}
@@ -1074,6 +1080,78 @@ func c01Prune(w *World, r *Report) {
 		pos = w.InstrPos(at)
 	}
 	r.Check(okArg, "C01/PRUNE", "make-room", pos, "Storage.Create prunes to MaxHistory-1 before adding the new record", "Storage.Create does not prune to MaxHistory-1 before adding the new record")
+	c01PruneSpares(w, r, "C01/PRUNE", fn, g, passesVersion, guards, pos)
+}
+
+// c01PruneSpares: (a) pruning never selects the revision that is being created or a newer one — Create
+// hands the new record's Version to the pruner and every selection lies behind "candidate.Version <
+// that version"; (b) a candidate is passed over only because it is the deployed revision or because of (a).
+func c01PruneSpares(w *World, r *Report, rule string, fn *ssa.Function, g *Graph, passesVersion bool, differs []Edge, pos string) {
+	var older, notOlder []Edge
+	isIntParam := func(v ssa.Value) bool {
+		p, ok := v.(*ssa.Parameter)
+		if !ok {
+			return false
+		}
+		b, ok := p.Type().Underlying().(*types.Basic)
+		return ok && b.Kind() == types.Int
+	}
+	for _, e := range relEdges(fn, isVersionLoad, isIntParam) {
+		switch e.Rel {
+		case token.LSS:
+			older = append(older, e.Edge)
+		case token.GEQ:
+			notOlder = append(notOlder, e.Edge)
+		}
+	}
+	var appends []ssa.Instruction
+	for _, b := range fn.Blocks {
+		for _, in := range b.Instrs {
+			if c, ok := in.(*ssa.Call); ok {
+				if bi, ok := c.Call.Value.(*ssa.Builtin); ok && bi.Name() == "append" {
+					if sl, ok := c.Type().Underlying().(*types.Slice); ok && isReleasePtr(sl.Elem()) {
+						appends = append(appends, c)
+					}
+				}
+			}
+		}
+	}
+	okSpare := passesVersion && len(older) > 0
+	for _, a := range appends {
+		if ex, _ := g.PathExists(entryPos(fn), posOf(a), Avoid{}.withEdges(older...)); ex {
+			okSpare = false
+		}
+	}
+	r.Check(okSpare, rule, "spares-the-new-revision", pos, "the pruner is given the new record's Version and selects only older revisions", "pruning can remove the revision that is being created (or a newer one): of two operations racing for the same revision number the second removes the first one's record and then creates its own")
+	if len(appends) == 0 {
+		return
+	}
+	// passed over only for those two reasons
+	comp := sccOf(fn)[appends[0].Block()]
+	in := map[*ssa.BasicBlock]bool{}
+	for _, b := range comp {
+		in[b] = true
+	}
+	var hdr *ssa.BasicBlock
+	for _, b := range comp {
+		for _, p := range b.Preds {
+			if !in[p] {
+				hdr = b
+			}
+		}
+	}
+	if hdr == nil || len(hdr.Succs) != 2 {
+		return
+	}
+	// edges on which the candidate IS the deployed revision: the complements of `differs`
+	var same []Edge
+	for _, e := range differs {
+		if _, isIf := e.From.Instrs[len(e.From.Instrs)-1].(*ssa.If); isIf && len(e.From.Succs) == 2 && e.Via == nil {
+			same = append(same, Edge{From: e.From, Succ: 1 - e.Succ})
+		}
+	}
+	ex, _ := g.PathExists(IPos{hdr.Succs[0], -1}, IPos{hdr, 0}, avoidInstrs(appends...).withEdges(same...).withEdges(notOlder...))
+	r.Check(!ex, rule, "only-deployed-and-new-exempt", pos, "a revision is passed over only when it is the deployed one (or not older than the record being created)", "a revision can be passed over for another reason: revisions that should be pruned oldest-first stay, and the history grows beyond the limit")
 }
 
 func isVersionLoad(v ssa.Value) bool {
